@@ -92,27 +92,30 @@ RACE_HDR = "WARNING: DATA RACE"
 
 
 def parse_race_logs(prefix):
-    """Return list of (signature, text) for each race block; signature = sorted pair of innermost repo frames."""
+    """Return list of (signature, text) for each race block; signature = sorted set of the innermost repository frames of
+    the two conflicting accesses (line numbers and closure suffixes stripped)."""
     res = []
     for f in sorted(glob.glob(prefix + "*")):
         txt = open(f, errors="replace").read()
-        for blk in txt.split("==================")[0:]:
+        for blk in txt.split("=================="):
             if RACE_HDR not in blk:
                 continue
-            stacks = re.split(r"\n(?=(?:Previous |)(?:read|write|atomic read|atomic write) at|Goroutine )", blk)
             frames = []
-            for st in stacks:
-                if not re.match(r"(?:.*\n)?(?:Previous |)(?:[Rr]ead|[Ww]rite|atomic)", st.strip()[:40] + "\n"):
-                    pass
-                if re.search(r"^(?:WARNING: DATA RACE\n)?(?:Previous )?(?:[Rr]ead|[Ww]rite|[Aa]tomic)", st.strip()):
-                    fr = None
-                    for m in re.finditer(r"^\s+(github\.com/formancehq/[^\s(]+)\(", st, re.M):
-                        fn = m.group(1)
-                        if "/internal/verif/" in fn:
-                            continue
-                        fr = re.sub(r"\.func\d+(\.\d+)*$", "", fn)
-                        break
-                    frames.append(fr or "harness-or-runtime")
+            for sec in re.split(r"\n\s*\n", blk):
+                head = sec.strip().split("\n", 1)[0]
+                if head.startswith(RACE_HDR):
+                    head = sec.strip().split("\n", 2)[1] if "\n" in sec.strip() else ""
+                if not re.match(r"(Previous )?(read|write|atomic read|atomic write)", head, re.I):
+                    continue
+                fr = None
+                for m in re.finditer(r"^\s+(github\.com/formancehq/\S+)\(", sec, re.M):
+                    fn = m.group(1)
+                    if "/internal/verif/" in fn:
+                        continue
+                    fr = re.sub(r"\.func\d+(\.\d+)*$", "", fn)
+                    fr = re.sub(r"\[[^\]]*\]", "", fr)
+                    break
+                frames.append(fr or "harness-or-runtime")
             sig = "race:" + "|".join(sorted(set(frames))) if frames else "race:unparsed"
             res.append((sig, blk.strip()[:6000]))
     return res
@@ -165,7 +168,7 @@ def run_children(pid, spec, run, binpath, tier, seed, replay):
 
 
 def first_repo_frame(text):
-    for m in re.finditer(r"^(github\.com/formancehq/[^\s(]+)\(", text, re.M):
+    for m in re.finditer(r"^(github\.com/formancehq/\S+)\(", text, re.M):
         fn = m.group(1)
         if "/internal/verif/" in fn:
             continue
